@@ -47,7 +47,7 @@ KEYWORDS = ['int', 'byte', 'bool', 'string', 'empty', 'const', 'if', 'else', 'wh
 SYMBOLS = list('(){}[];,.=+-*/%<>') + ['==', '!=', '<=', '>=', '??', '+=', '-=', '*=', '/=', '%=']
 IDENTS = ['x', 'y', 'arr', '@is_you', '@f', '!g', 'h', 'write', 'writeln', '!is_defeat', '!truth_is_defeat',
           'all_is_win', 'length', 'sleep']
-LITS = ['0', '1', '42', '0xFF', '0b101', '0o17', '1_000', '32768', '99999999999999999999', "'a'", "'\\n'",
+LITS = ['007', '00', '0_9', '0010', '0', '1', '42', '0xFF', '0b101', '0o17', '1_000', '32768', '99999999999999999999', "'a'", "'\\n'",
         "'\\x41'", '"s"', '""', '"\\u{1F30E}"', '"\\xff"', "'\\''"]
 
 
